@@ -28,7 +28,34 @@ const Level = "exploration"
 
 const procTimeout = 60 * time.Second
 
-var shells = []string{"dash", "bash"}
+// shellSpec is one way of starting a POSIX shell.
+type shellSpec struct {
+	label string   // as reported
+	dir   string   // directory name of its runs
+	path  string   // the binary
+	pre   []string // arguments in front of -c
+	nproc string   // the option of its ulimit builtin that names RLIMIT_NPROC
+}
+
+var (
+	shDash      = shellSpec{"dash", "dash", "/usr/bin/dash", nil, "-p"}
+	shBash      = shellSpec{"bash", "bash", "/usr/bin/bash", nil, "-u"}
+	shBashPosix = shellSpec{"bash --posix", "bash-posix", "/usr/bin/bash", []string{"--posix"}, "-u"}
+)
+
+var shells = []shellSpec{shDash, shBash}
+
+// caseOpt is what the names engine changes about a case (nil: a case of the
+// prog / probe engines).
+type caseOpt struct {
+	name    string      // the function name under test
+	shells  []shellSpec // the shells that were seen to define and call a function of that name
+	fnb     []byte      // the function text FromPerl returned (already obtained by the caller)
+	contain bool        // the wrapper's own text uses the name: every process runs contained (selfname.go)
+}
+
+// nameKey is the suffix of every violation key of the names engine.
+const nameKey = ":function-name-known-to-shell"
 
 // fixedEnv is the reduced environment of every run: nothing of the caller's
 // PERL5* (or anything else) is inherited.
@@ -73,12 +100,14 @@ func around(b []byte, i int) string {
 
 // Run generates and checks the programs.
 func Run(r *mon.Run) {
-	r.Rule = "engine prog: program i is built from r.Rng(\"prog\", i) by a grammar of Perl statements (print of single-quoted / double-quoted-with-escapes / q-operator / here-doc literals whose contents walk over all 256 byte values; braces, quotes and backslashes in code; @ARGV echo with hex dump; STDIN slurp/line/read/<> with hex dump; subs, closures, sort, regex, pack, sprintf, string eval, scoped objects, file I/O in the cwd, BEGIN blocks, use constant / List::Util / POSIX, say, signatures, state, format/write, :utf8 output layer; optional strict/warnings or use v5.36; one script in twelve with CR LF line endings; ending: fall off the end / exit N / die \"msg\\n\" / die \"msg\" / runtime error; optional text after __END__ or __DATA__ that is never read; optional leading comment block with #!, bare #, TABDOC and shell-hostile comment lines; optional leading/trailing whitespace), padded so that the length of the text perl receives is i mod 45; indices 0..7 are the empty, whitespace-only and comment-only scripts; a few indices per hundred are 30-64 KiB. Each program gets one argument vector (every 4th: none) and one stdin content, and is run by `perl file args` and by `<shell> -c '. ./f; name \"$@\"' sh args` for dash and bash in fresh directories with a fixed environment. Oracle: stdout byte-identical and exit status identical; dying scripts: non-zero status, stderr contains the die message, and for messages without newline the reported line number equals perl's own (minus newlines in trimmed leading whitespace). Static: body between q{` and }=~y/sb/ with s->' b->\\ reversed, decoded by a live perl unpack('u'), equals the harness's reference text (trim, blank the leading comment run); leading comments and function name as stated. Engine probe: fixed scripts for the behavioural differences found by hand (END block, global DESTROY, raw CR after a here-doc, raw CRLF in a literal, `use utf8` followed by non-UTF-8 bytes, __END__ followed by a line starting with ':'), which the random generator avoids together with $0/__FILE__/caller/__DATA__ reads/INIT/CHECK/__DIE__ handlers/top-level return/child perl/time/pid/rand/hash order. distinct_nontrivial = distinct (program text, args, stdin) triples (hash) of non-empty programs whose reference run produced output or a non-zero status"
+	r.Rule = "engine prog: program i is built from r.Rng(\"prog\", i) by a grammar of Perl statements (print of single-quoted / double-quoted-with-escapes / q-operator / here-doc literals whose contents walk over all 256 byte values; braces, quotes and backslashes in code; @ARGV echo with hex dump; STDIN slurp/line/read/<> with hex dump; subs, closures, sort, regex, pack, sprintf, string eval, scoped objects, file I/O in the cwd, BEGIN blocks, use constant / List::Util / POSIX, say, signatures, state, format/write, :utf8 output layer; optional strict/warnings or use v5.36; one script in twelve with CR LF line endings; ending: fall off the end / exit N / die \"msg\\n\" / die \"msg\" / runtime error; optional text after __END__ or __DATA__ that is never read; optional leading comment block with #!, bare #, TABDOC and shell-hostile comment lines; optional leading/trailing whitespace), padded so that the length of the text perl receives is i mod 45; indices 0..7 are the empty, whitespace-only and comment-only scripts; a few indices per hundred are 30-64 KiB. Each program gets one argument vector (every 4th: none) and one stdin content, and is run by `perl file args` and by `<shell> -c '. ./f; name \"$@\"' sh args` for dash and bash in fresh directories with a fixed environment. Oracle: stdout byte-identical and exit status identical; dying scripts: non-zero status, stderr contains the die message, and for messages without newline the reported line number equals perl's own (minus newlines in trimmed leading whitespace). Static: body between q{` and }=~y/sb/ with s->' b->\\ reversed, decoded by a live perl unpack('u'), equals the harness's reference text (trim, blank the leading comment run); leading comments and function name as stated. Engine probe: fixed scripts for the behavioural differences found by hand (END block, global DESTROY, raw CR after a here-doc, raw CRLF in a literal, `use utf8` followed by non-UTF-8 bytes, __END__ followed by a line starting with ':'), which the random generator avoids together with $0/__FILE__/caller/__DATA__ reads/INIT/CHECK/__DIE__ handlers/top-level return/child perl/time/pid/rand/hash order. Engine names (function names that mean something to the shell): a fixed list of script base names taken from the shells' regular builtins (kill type wait hash jobs test echo printf read cd [ ...), special builtins (set exit eval exec export : . ...), bash's own builtins (declare local source ...), reserved words (if for time function { ! ...), common utilities (ls cat env perl sh ...) and variables (PATH HOME IFS PERL5OPT ...); each of dash, bash and bash --posix is first ASKED whether a script may define and call a function of that name (`name() { >./called-$#; }; name a b`, a body without any command: status 0 and the file called-2 exist), and for every (name, shell) pair the shell accepts one generated program (thorough: six) - never the empty / whitespace-only / comment-only ones - is saved as name.pl / name.perl / dir/name.pl / name.PL / name and goes through the very same static and dynamic oracle under exactly the accepting shells; FromPerl returning an error for such a name is a violation; pairs the shell refuses are counted and not judged. A name that occurs as a word in the generated function's own text (comment lines in front, the opening `name()` and the encoded script left out) may make the function call itself; such a case is run CONTAINED (uid/gid 64999 used by nothing else, RLIMIT_NPROC 64 set and read back by the shell text itself which also checks `id -u` before it sources anything, one such run at a time on the machine, killed leaves-first as soon as a failed fork is reported) and `went on until fork failed` is reported under the key perl-function-name-used-by-wrapper:<name> (one key per name, whatever the shell); any other difference of a contained run is judged and keyed like that of every other case of the engine (<clause>:function-name-known-to-shell). distinct_nontrivial = distinct (program text, args, stdin) triples (hash) of non-empty programs whose reference run produced output or a non-zero status"
 	r.Assumptions = []string{
 		"perl 5.36, dash and bash as installed are the platform; `perl file args` in the same fixed environment is the reference",
 		"stderr is compared only for the die-message clause",
 		"programs are sampled from a grammar; the space of Perl scripts is not enumerated",
 		"the statement's own trimming of leading blank lines shifts line numbers by the trimmed newlines; that shift is taken as stated behaviour",
+		"which names may be given to a function is the shell's business: a (name, shell) pair is judged only if that shell, asked directly, defines and calls a function of that name; the list of names is fixed, the set of all names a shell knows is not enumerated",
+		"functions whose own text uses their name are only run as root-started processes of uid 64999 under a process limit; when the check is not root or its work directory cannot be reached by another uid they are NOT run and listed under names_not_explored in the evidence",
 	}
 
 	a := &acc{argsSeen: map[string]bool{}, features: map[string]int{}}
@@ -101,7 +130,7 @@ func Run(r *mon.Run) {
 				return
 			}
 			p := genProgram(r.Rng("prog", i), i)
-			checkProgram(r, a, "prog", i, p, nil)
+			checkProgram(r, a, "prog", i, p, nil, nil)
 		})
 	}
 	if r.WantEngine("probe") {
@@ -111,9 +140,13 @@ func Run(r *mon.Run) {
 			}
 			pr := probes[i]
 			p := &program{File: pr.file, Text: []byte(pr.text), Args: pr.args, Stdin: []byte(pr.stdin), Kind: "plain", Features: []string{"probe:" + pr.key}}
-			checkProgram(r, a, "probe", i, p, &pr)
+			checkProgram(r, a, "probe", i, p, &pr, nil)
 			r.Count("probe_programs", 1)
 		})
+	}
+
+	if r.WantEngine("names") {
+		runNames(r, a)
 	}
 
 	cnt := func(b []bool) int64 {
@@ -173,6 +206,24 @@ func Run(r *mon.Run) {
 	r.Floor("die_line_numbers_compared", int64(n/50))
 	r.Floor("lead_comment_blocks_checked", int64(n/4))
 	r.Floor("probe_programs", int64(len(probes)))
+	// engine names (names.go); the contained cases set their own floors there
+	r.Floor("names_candidates", 150)
+	r.Floor("names_accepted_by_dash", 100)
+	r.Floor("names_accepted_by_bash", 110)
+	r.Floor("names_accepted_by_bash_posix", 95)
+	r.Floor("names_refused_by_the_shell_pairs_not_judged", 50)
+	r.Floor("names_cases", int64(r.N(120, 720)))
+	r.Floor("names_cases_regular_builtin", int64(r.N(20, 120)))
+	r.Floor("names_cases_special_builtin", int64(r.N(12, 72)))
+	r.Floor("names_cases_bash_builtin", int64(r.N(18, 108)))
+	r.Floor("names_cases_reserved_word", int64(r.N(3, 18)))
+	r.Floor("names_cases_utility", int64(r.N(35, 210)))
+	r.Floor("names_cases_variable", int64(r.N(25, 150)))
+	r.Floor("names_shell_runs", int64(r.N(300, 1800)))
+	r.Floor("names_static_body_checks", int64(r.N(110, 660)))
+	r.Floor("names_stdout_bytes_compared", 100_000)
+	r.Floor("names_die_cases", int64(r.N(10, 60)))
+	r.Floor("names_runs_with_arguments", int64(r.N(60, 360)))
 }
 
 var reLine = regexp.MustCompile(` line (\d+)`)
@@ -216,9 +267,22 @@ func head(b []byte, n int) []byte {
 }
 
 // checkProgram runs one case through the static and the dynamic oracle.
-func checkProgram(r *mon.Run, a *acc, engine string, idx int, p *program, pr *probe) {
+func checkProgram(r *mon.Run, a *acc, engine string, idx int, p *program, pr *probe, opt *caseOpt) {
 	name := funcNameOf(p.File)
-	fnb, err := shellfuncsfile.FromPerl(p.File, bytes.NewReader(p.Text))
+	// counters of the names engine are kept apart: they must not fill the floors of the prog engine
+	count := func(n string, v int64) {
+		if opt != nil {
+			n = "names_" + n
+		}
+		r.Count(n, v)
+	}
+	var fnb []byte
+	var err error
+	if opt != nil && opt.fnb != nil {
+		fnb = opt.fnb
+	} else {
+		fnb, err = shellfuncsfile.FromPerl(p.File, bytes.NewReader(p.Text))
+	}
 	if err != nil {
 		r.Violate(engine, idx, "fromperl-error", fmt.Sprintf("FromPerl returned an error for a %d-byte script: %v", len(p.Text), err), nil)
 		return
@@ -247,9 +311,12 @@ func checkProgram(r *mon.Run, a *acc, engine string, idx int, p *program, pr *pr
 		if pr != nil {
 			key = pr.keyFor(clause, w)
 		}
+		if opt != nil {
+			key = clause + nameKey
+		}
 		r.Violate(engine, idx, key, what, w)
 	}
-	r.Count("programs", 1)
+	count("programs", 1)
 
 	// ---- static oracle ---------------------------------------------------------
 	wantText, wantLead := expectedText(string(p.Text))
@@ -265,13 +332,13 @@ func checkProgram(r *mon.Run, a *acc, engine string, idx int, p *program, pr *pr
 			if perr != nil {
 				r.Inconclusive("perl unpack oracle: " + perr.Error())
 			} else {
-				r.Count("static_body_checks", 1)
+				count("static_body_checks", 1)
 				staticOK = true
 				if sawS {
-					r.Count("bodies_with_quote_substituted", 1)
+					count("bodies_with_quote_substituted", 1)
 				}
 				if sawB {
-					r.Count("bodies_with_backslash_substituted", 1)
+					count("bodies_with_backslash_substituted", 1)
 				}
 				if string(got) != wantText {
 					i := firstDiff(got, []byte(wantText))
@@ -288,7 +355,7 @@ func checkProgram(r *mon.Run, a *acc, engine string, idx int, p *program, pr *pr
 				a.maxEnc = max(a.maxEnc, len(uuText))
 				a.mu.Unlock()
 				if len(p.Text) > 32<<10 {
-					r.Count("programs_over_32KiB", 1)
+					count("programs_over_32KiB", 1)
 				}
 			}
 		}
@@ -311,7 +378,7 @@ func checkProgram(r *mon.Run, a *acc, engine string, idx int, p *program, pr *pr
 			violate(clause, fmt.Sprintf("function text does not start with the expected leading comments followed by %q: starts %s, expected %s", name+"() {", short(head(fnb, len(wantHead)+40), 200), short([]byte(wantHead), 200)), w)
 		}
 		if wantLead != "" {
-			r.Count("lead_comment_blocks_checked", 1)
+			count("lead_comment_blocks_checked", 1)
 		}
 	} else if !strings.HasPrefix(fn, name+"()") {
 		violate("func-name-differs", fmt.Sprintf("function for an empty script does not start with %q: %s", name+"()", short(fnb, 80)), w)
@@ -321,11 +388,22 @@ func checkProgram(r *mon.Run, a *acc, engine string, idx int, p *program, pr *pr
 	// ---- dynamic oracle ---------------------------------------------------------
 	dir := filepath.Join(r.Work, fmt.Sprintf("%s-%d", engine, idx))
 	defer os.RemoveAll(dir)
+	contain := opt != nil && opt.contain
+	refUid := 0
+	if contain {
+		refUid = selfUID
+	}
 	mk := func(sub string) (string, bool) {
 		d := filepath.Join(dir, sub)
 		if err := os.MkdirAll(d, 0o755); err != nil {
 			r.Inconclusive("mkdir: " + err.Error())
 			return "", false
+		}
+		if contain { // the processes of a contained case are not root: scripts write into their directory
+			if err := os.Chmod(d, 0o777); err != nil {
+				r.Inconclusive("chmod: " + err.Error())
+				return "", false
+			}
 		}
 		return d, true
 	}
@@ -342,10 +420,10 @@ func checkProgram(r *mon.Run, a *acc, engine string, idx int, p *program, pr *pr
 	if stdin == nil {
 		stdin = []byte{}
 	}
-	ref := mon.Proc{Path: "/usr/bin/perl", Args: append([]string{base}, p.Args...), Env: fixedEnv, Dir: refDir, Stdin: stdin, Timeout: procTimeout}.Run()
+	ref := mon.Proc{Path: "/usr/bin/perl", Args: append([]string{base}, p.Args...), Env: fixedEnv, Dir: refDir, Stdin: stdin, Timeout: procTimeout, Uid: refUid}.Run()
 	if ref.TimedOut {
 		r.Inconclusive(fmt.Sprintf("%s %d: reference perl run hit the %s watchdog", engine, idx, procTimeout))
-		r.Count("watchdog_fired", 1)
+		count("watchdog_fired", 1)
 		return
 	}
 	w.RefStdout, w.RefStatus, w.RefStderr = string(head(ref.Stdout, 2048)), ref.Status, string(head(ref.Stderr, 1024))
@@ -372,7 +450,7 @@ func checkProgram(r *mon.Run, a *acc, engine string, idx int, p *program, pr *pr
 	}
 	if !planned {
 		r.Inconclusive(fmt.Sprintf("%s %d: generated program did not behave as planned under plain perl (kind %s, planned status %d, got %d signal %q, stderr %s); script: %s", engine, idx, p.Kind, p.Exit, ref.Status, ref.Signal, short(ref.Stderr, 300), short(p.Text, 1500)))
-		r.Count("generator_plan_mismatch", 1)
+		count("generator_plan_mismatch", 1)
 		return
 	}
 	refLine, haveRefLine := 0, false
@@ -389,6 +467,9 @@ func checkProgram(r *mon.Run, a *acc, engine string, idx int, p *program, pr *pr
 		h.Write(p.Stdin)
 		r.Distinct(string(h.Sum(nil)))
 	}
+	if opt != nil && !contain {
+		r.Sample("function-name-known-to-shell", map[string]any{"index": idx, "file": p.File, "function_name": name, "shells_that_accept_the_name": labels(opt.shells), "args": p.Args, "perl_status": ref.Status, "perl_stdout_head": string(head(ref.Stdout, 200))})
+	}
 	a.mu.Lock()
 	a.argsSeen[fmt.Sprintf("%q", p.Args)] = true
 	for _, f := range p.Features {
@@ -403,27 +484,34 @@ func checkProgram(r *mon.Run, a *acc, engine string, idx int, p *program, pr *pr
 	a.mu.Unlock()
 	switch p.Kind {
 	case "die-nl", "die-noline":
-		r.Count("die_cases", 1)
+		count("die_cases", 1)
 	default:
 		if ref.Status != 0 {
-			r.Count("exit_nonzero_cases", 1)
+			count("exit_nonzero_cases", 1)
 		}
 	}
 	if len(p.Args) == 0 {
-		r.Count("no_argument_runs", 1)
+		count("no_argument_runs", 1)
+	} else if opt != nil {
+		count("runs_with_arguments", 1)
 	}
 
-	dotted := strings.ContainsAny(name, ".-")
+	dotted := opt == nil && strings.ContainsAny(name, ".-")
 	if dotted {
-		r.Count("programs_whose_function_name_is_not_a_posix_name", 1)
+		count("programs_whose_function_name_is_not_a_posix_name", 1)
 	}
-	for _, sh := range shells {
+	runIn := shells
+	if opt != nil {
+		runIn = opt.shells // established by the shells themselves (names.go)
+	}
+	for _, spec := range runIn {
+		sh := spec.label
 		if dotted && sh != "bash" {
 			// only bash defines functions whose names contain '.' or '-'
-			r.Count("shell_runs_skipped_name_not_posix", 1)
+			count("shell_runs_skipped_name_not_posix", 1)
 			continue
 		}
-		d, ok := mk(sh)
+		d, ok := mk(spec.dir)
 		if !ok {
 			return
 		}
@@ -431,16 +519,47 @@ func checkProgram(r *mon.Run, a *acc, engine string, idx int, p *program, pr *pr
 			r.Inconclusive("write: " + err.Error())
 			return
 		}
-		args := append([]string{"-c", `. ./f; ` + name + ` "$@"`, "sh"}, p.Args...)
-		res := mon.Proc{Path: "/usr/bin/" + sh, Args: args, Env: fixedEnv, Dir: d, Stdin: stdin, Timeout: procTimeout}.Run()
+		var res mon.ProcResult
+		if contain {
+			t0 := time.Now()
+			cr := runContained(spec, name, p.Args, d, stdin)
+			if os.Getenv("C16_TRACE") != "" {
+				r.Logf("contained %s under %s: %s (run itself %s) forkFailed=%v timedOut=%v broken=%q", name, sh, time.Since(t0), cr.Wall, cr.forkFailed, cr.TimedOut, cr.broken)
+			}
+			res = cr.ProcResult
+			count("contained_shell_runs", 1)
+			ww := w
+			ww.Shell, ww.WrapStdout, ww.WrapStatus, ww.WrapStderr = sh, string(head(res.Stdout, 2048)), res.Status, string(head(res.Stderr, 1024))
+			switch {
+			case cr.broken != "":
+				r.Inconclusive(fmt.Sprintf("%s %d: contained %s run of function %s: %s", engine, idx, sh, name, cr.broken))
+				count("contained_runs_broken", 1)
+				continue
+			case cr.forkFailed:
+				count("contained_shell_runs_judged", 1)
+				// The function ran until the system refused it another process: the
+				// wrapper's own text runs a command called like the function.
+				count("contained_runs_stopped_by_the_process_limit", 1)
+				r.Eval(1)
+				r.Violate(engine, idx, selfKey+name, fmt.Sprintf("the function %s generated for %s calls itself: under %s (as uid %d with at most %d processes) it went on starting subshells until fork failed (%s), whereas perl on the script exits with status %d after %d bytes of output; the wrapper's own text runs a command named %s", name, base, sh, selfUID, selfNproc, short(cr.forkLine, 120), ref.Status, len(ref.Stdout), name), ww)
+				continue
+			}
+		} else {
+			args := append(append([]string{}, spec.pre...), "-c", `. ./f; `+name+` "$@"`, "sh")
+			args = append(args, p.Args...)
+			res = mon.Proc{Path: spec.path, Args: args, Env: fixedEnv, Dir: d, Stdin: stdin, Timeout: procTimeout}.Run()
+		}
+		if contain {
+			count("contained_shell_runs_judged", 1)
+		}
 		if res.TimedOut {
 			r.Inconclusive(fmt.Sprintf("%s %d: %s run hit the %s watchdog", engine, idx, sh, procTimeout))
-			r.Count("watchdog_fired", 1)
+			count("watchdog_fired", 1)
 			continue
 		}
 		r.Eval(1)
-		r.Count("shell_runs", 1)
-		r.Count("stdout_bytes_compared", int64(len(ref.Stdout)))
+		count("shell_runs", 1)
+		count("stdout_bytes_compared", int64(len(ref.Stdout)))
 		ww := w
 		ww.Shell, ww.WrapStdout, ww.WrapStatus, ww.WrapStderr = sh, string(head(res.Stdout, 2048)), res.Status, string(head(res.Stderr, 1024))
 		desc := fmt.Sprintf("%d-byte script %s, %d args, under %s", len(p.Text), base, len(p.Args), sh)
@@ -461,7 +580,7 @@ func checkProgram(r *mon.Run, a *acc, engine string, idx int, p *program, pr *pr
 				if !ok {
 					violate("die-line-missing", fmt.Sprintf("die message of the function carries no `at (eval N) line L`: %s; %s", short(res.Stderr, 300), desc), ww)
 				} else {
-					r.Count("die_line_numbers_compared", 1)
+					count("die_line_numbers_compared", 1)
 					if got != want {
 						violate("die-line-shifted", fmt.Sprintf("die reports line %d through the function but line %d under perl (minus %d trimmed leading newlines): line numbers not preserved; %s", got, refLine, leadingNewlines(string(p.Text)), desc), ww)
 					}
